@@ -161,7 +161,7 @@ def run(chk):
     quick = chk.tier == 'quick'
     cfg = os.path.join(SPEC, 'rainflow', 'MC_Chunked_quick.cfg' if quick else 'MC_Chunked_thorough.cfg')
     # (A) exhaustive model check + dump of every (signal, partition) state
-    res = tlc.run(TLA, cfg, dump=True, coverage=not quick, timeout=3000, heap='12g')
+    res = tlc.run(TLA, cfg, dump=True, timeout=3000, heap="12g")
     chk.tlc(os.path.basename(cfg), res, 'all signals x all chunkings; 17 invariants (C01, C02, C03 model theorems)')
     if res.violated:
         # model-level counterexample: decide on the real code (DESIGN 3.4 case 3)
